@@ -88,7 +88,14 @@ func c11Check2(cs []tcue, warm bool) string {
 	for k, c := range cs {
 		it := textItem(time.Duration(c.S), time.Duration(c.E), c.T)
 		if c.T == "" {
-			it.Lines = nil // a cue without any line (an image-only or cleared cue): its text is the empty text
+			// a cue without text (an image-only or cleared cue) - no line at all, one line without runs, or one run
+			// of no characters: the empty text in all three shapes
+			switch k % 3 {
+			case 0:
+				it.Lines = nil
+			case 1:
+				it.Lines = []astisub.Line{{}}
+			}
 		}
 		if strings.Contains(c.T, "\n") {
 			// a multi-line cue (roll-up captions share their first lines)
